@@ -1,3 +1,5 @@
 mod precise;
 
 pub use precise::AymPrecise;
+#[cfg(rustzx_verif)]
+pub use precise::VerifRawTick;
